@@ -67,6 +67,17 @@ type Contract struct {
 	Modifies    []Expr
 	ModSrc      []string
 	ModWhen     []Expr // parallel to Modifies: nil = unconditional; else the target may be modified only when the condition (over the entry state) holds
+	// HiddenMod ("hidden modifies targets"): the concrete state BEHIND an abstraction (see `representation`): part of
+	// the function's own frame, but not a target callers see in their frames (callers reason over the represented ghost
+	// variables only); at call sites the targets are havocked silently. Listed in the evidence as trusted.
+	HiddenMod []Expr
+	HiddenSrc []string
+	// Rederives ("rederives"): at every normal return the ghost variables defined by `representation` declarations are
+	// re-derived from the final state (fresh value + defining equation); ensures / frame are checked over them
+	Rederives bool
+	// TrustedRequires ("trusted requires expr"): assumed at the entry of the verified body, NOT imposed on callers
+	// (an environment assumption such as "this keeper is the wired one"); listed in the evidence as trusted
+	TrustedRequires []*Clause
 	// panics: "" unspecified, "never", "only_if", "iff", "any"
 	PanicMode     string
 	PanicCond     Expr
@@ -128,6 +139,10 @@ type GhostVar struct {
 type Axiom struct {
 	Name    string
 	E       Expr
+	// RepVar: for `representation name: forall xs :: g[xs] == expr` the ghost variable g that the declaration DEFINES
+	// as a function of other state ("" for plain axioms). Asserted like an axiom at function entry; contracts marked
+	// `rederives` re-derive g at their exits.
+	RepVar string
 	Src     string
 	PkgPath string
 	Imports map[string]string
@@ -181,7 +196,7 @@ var closureNameRe = regexp.MustCompile(`^(.+)__(\d+)$`)
 var labelRe = regexp.MustCompile(`^\[([A-Za-z0-9_.,\- ]+)\]`)
 
 var clauseKw = map[string]bool{"requires": true, "ensures": true, "modifies": true, "panics": true, "pure": true,
-	"assumed": true, "invariant": true, "decreases": true, "noinline": true, "trusted": true, "at": true, "deterministic": true, "fresh_writes": true}
+	"assumed": true, "invariant": true, "decreases": true, "noinline": true, "trusted": true, "at": true, "deterministic": true, "fresh_writes": true, "hidden": true, "rederives": true}
 
 // parseSpecFile reads //@ lines of one file. pkgPath is the package whose scope resolves unqualified Go names
 // (for prelude files it is set by `//@ package "path"`).
@@ -207,7 +222,7 @@ func (db *SpecDB) parseSpecFile(file string, pkgPath string) {
 		s  string
 	}
 	var ents []ent
-	topKw := map[string]bool{"allocator": true, "import": true, "package": true, "opaque": true, "immutable": true, "handle": true, "ghost": true, "axiom": true, "func": true, "loop": true, "zeroinit": true, "functype": true, "layered": true}
+	topKw := map[string]bool{"allocator": true, "import": true, "package": true, "opaque": true, "immutable": true, "handle": true, "ghost": true, "axiom": true, "func": true, "loop": true, "zeroinit": true, "functype": true, "layered": true, "representation": true}
 	for i, raw := range lines {
 		l := strings.TrimSpace(raw)
 		var body string
@@ -370,7 +385,7 @@ func (db *SpecDB) parseSpecFile(file string, pkgPath string) {
 				errf(en.ln, "bad ghost declaration")
 			}
 			cur, curLoop = nil, nil
-		case "axiom":
+		case "axiom", "representation":
 			var axProps map[string]bool
 			if m := labelRe.FindStringSubmatch(rest); m != nil {
 				axProps = map[string]bool{}
@@ -389,7 +404,16 @@ func (db *SpecDB) parseSpecFile(file string, pkgPath string) {
 				errf(en.ln, "%v", err)
 				continue
 			}
-			db.Axioms = append(db.Axioms, &Axiom{strings.TrimSpace(rest[:i]), e, rest[i+1:], pkgPath, copyMap(imports), axProps})
+			ax := &Axiom{Name: strings.TrimSpace(rest[:i]), E: e, Src: rest[i+1:], PkgPath: pkgPath, Imports: copyMap(imports), Props: axProps}
+			if w == "representation" {
+				g, err := representedVar(e)
+				if err != nil {
+					errf(en.ln, "representation %s: %v", ax.Name, err)
+					continue
+				}
+				ax.RepVar = g
+			}
+			db.Axioms = append(db.Axioms, ax)
 			cur, curLoop = nil, nil
 		case "func", "functype":
 			c := &Contract{File: file, Line: en.ln, PkgPath: pkgPath, Imports: copyMap(imports), SigSrc: body, Loops: map[int]*LoopSpec{}, Props: map[string]bool{}, StrongProps: map[string]bool{}, CallAsserts: map[string][]*Clause{}, CallInvariants: map[string][]*Clause{}}
@@ -481,13 +505,13 @@ func (db *SpecDB) parseSpecFile(file string, pkgPath string) {
 			trusted := false
 			if w == "trusted" {
 				// trusted ensures [label] expr
-				if firstWord(rest) != "ensures" {
-					errf(en.ln, "only ensures clauses can be marked trusted")
+				if firstWord(rest) != "ensures" && firstWord(rest) != "requires" {
+					errf(en.ln, "only ensures / requires clauses can be marked trusted")
 					continue
 				}
 				trusted = true
-				w = "ensures"
-				rest = strings.TrimSpace(rest[len("ensures"):])
+				w = firstWord(rest)
+				rest = strings.TrimSpace(rest[len(w):])
 				label = ""
 				if m := labelRe.FindStringSubmatch(rest); m != nil {
 					label = strings.TrimSpace(m[1])
@@ -517,6 +541,23 @@ func (db *SpecDB) parseSpecFile(file string, pkgPath string) {
 				cur.Assumed = true
 			case "noinline":
 				cur.NoInline = true
+			case "rederives":
+				cur.Rederives = true
+			case "hidden":
+				// hidden modifies target, target ...
+				if firstWord(rest) != "modifies" {
+					errf(en.ln, "expected: hidden modifies <targets>")
+					continue
+				}
+				es, err := parseExprList(strings.TrimSpace(rest[len("modifies"):]))
+				if err != nil {
+					errf(en.ln, "%v", err)
+					continue
+				}
+				cur.HiddenMod = append(cur.HiddenMod, es...)
+				for _, e := range es {
+					cur.HiddenSrc = append(cur.HiddenSrc, exprString(e))
+				}
 			case "fresh_writes":
 				if curLoop == nil {
 					errf(en.ln, "fresh_writes outside a loop block")
@@ -597,7 +638,11 @@ func (db *SpecDB) parseSpecFile(file string, pkgPath string) {
 				cl := &Clause{Kind: w, Label: label, Src: rest, E: e, Trusted: trusted}
 				switch w {
 				case "requires":
-					cur.Requires = append(cur.Requires, cl)
+					if trusted {
+						cur.TrustedRequires = append(cur.TrustedRequires, cl)
+					} else {
+						cur.Requires = append(cur.Requires, cl)
+					}
 				case "ensures":
 					cur.Ensures = append(cur.Ensures, cl)
 				case "invariant":
@@ -618,6 +663,136 @@ func (db *SpecDB) parseSpecFile(file string, pkgPath string) {
 				}
 			}
 		}
+	}
+}
+
+// representedVar checks the shape of a `representation` declaration: forall x1 T1, .., xn Tn :: g[x1]..[xn] == expr
+// (the ghost variable g indexed by exactly the bound variables, in order) and returns g. That expr mentions no
+// represented ghost variable (so that the declarations DEFINE their variables: always satisfiable, for every value of
+// the remaining state) is checked once all declarations are known (checkRepresentations).
+func representedVar(e Expr) (string, error) {
+	var vars []QVar
+	for {
+		q, ok := e.(*EQuant)
+		if !ok {
+			break
+		}
+		if !q.Forall {
+			return "", fmt.Errorf("expected forall")
+		}
+		vars = append(vars, q.Vars...)
+		e = q.Body
+	}
+	b, ok := e.(*EBin)
+	if !ok || (b.Op != "==" && b.Op != "<==>") {
+		return "", fmt.Errorf("expected: forall xs :: g[xs] == expr")
+	}
+	lhs := b.X
+	for i := len(vars) - 1; i >= 0; i-- {
+		ix, ok := lhs.(*EIndex)
+		if !ok {
+			return "", fmt.Errorf("left-hand side must be the ghost variable indexed by the %d bound variables", len(vars))
+		}
+		id, ok := ix.I.(*EIdent)
+		if !ok || id.Name != vars[i].Name {
+			return "", fmt.Errorf("index %d of the left-hand side must be the bound variable %s", i+1, vars[i].Name)
+		}
+		lhs = ix.X
+	}
+	g, ok := lhs.(*EIdent)
+	if !ok {
+		return "", fmt.Errorf("left-hand side must be a ghost variable indexed by the bound variables")
+	}
+	return g.Name, nil
+}
+
+// checkRepresentations: every represented name is a ghost variable, defined once, and no defining expression mentions
+// a represented variable (directly or through a ghost macro).
+func (db *SpecDB) checkRepresentations() {
+	rep := map[string]string{}
+	for _, ax := range db.Axioms {
+		if ax.RepVar == "" {
+			continue
+		}
+		if _, ok := db.GhostVars[ax.RepVar]; !ok {
+			db.Errors = append(db.Errors, fmt.Sprintf("representation %s: %s is not a ghost variable", ax.Name, ax.RepVar))
+		}
+		if o, dup := rep[ax.RepVar]; dup {
+			db.Errors = append(db.Errors, fmt.Sprintf("representation %s: %s is already defined by %s", ax.Name, ax.RepVar, o))
+		}
+		rep[ax.RepVar] = ax.Name
+	}
+	for _, ax := range db.Axioms {
+		if ax.RepVar == "" {
+			continue
+		}
+		e := ax.E
+		for {
+			q, ok := e.(*EQuant)
+			if !ok {
+				break
+			}
+			e = q.Body
+		}
+		ids := map[string]bool{}
+		db.exprIdents(e.(*EBin).Y, ids, 0)
+		for _, n := range sortedKeys(ids) {
+			if _, bad := rep[n]; bad {
+				db.Errors = append(db.Errors, fmt.Sprintf("representation %s: the defining expression mentions the represented variable %s", ax.Name, n))
+			}
+		}
+	}
+}
+
+// exprIdents collects the identifiers of e (through the bodies of ghost funcs / macros it calls).
+func (db *SpecDB) exprIdents(e Expr, out map[string]bool, depth int) {
+	if depth > 8 {
+		return
+	}
+	switch x := e.(type) {
+	case *EIdent:
+		out[x.Name] = true
+	case *EUn:
+		db.exprIdents(x.X, out, depth)
+	case *EBin:
+		db.exprIdents(x.X, out, depth)
+		db.exprIdents(x.Y, out, depth)
+	case *ECond:
+		db.exprIdents(x.C, out, depth)
+		db.exprIdents(x.A, out, depth)
+		db.exprIdents(x.B, out, depth)
+	case *ECall:
+		if id, ok := x.Fun.(*EIdent); ok {
+			if g, ok := db.Ghosts[id.Name]; ok && g.Body != nil {
+				db.exprIdents(g.Body, out, depth+1)
+			}
+		} else {
+			db.exprIdents(x.Fun, out, depth)
+		}
+		for _, a := range x.Args {
+			db.exprIdents(a, out, depth)
+		}
+	case *ESel:
+		db.exprIdents(x.X, out, depth)
+	case *EIndex:
+		db.exprIdents(x.X, out, depth)
+		db.exprIdents(x.I, out, depth)
+	case *EUpd:
+		db.exprIdents(x.X, out, depth)
+		db.exprIdents(x.I, out, depth)
+		db.exprIdents(x.V, out, depth)
+	case *ESlice:
+		db.exprIdents(x.X, out, depth)
+		if x.Lo != nil {
+			db.exprIdents(x.Lo, out, depth)
+		}
+		if x.Hi != nil {
+			db.exprIdents(x.Hi, out, depth)
+		}
+	case *EQuant:
+		db.exprIdents(x.Body, out, depth)
+	case *EOld:
+		db.exprIdents(x.X, out, depth)
 	}
 }
 
@@ -1066,6 +1241,7 @@ func loadSpecs(P *Program, dirs []string) *SpecDB {
 		}
 	}
 	db.resolveContracts(P)
+	db.checkRepresentations()
 	return db
 }
 
